@@ -484,6 +484,21 @@ func (m *Matcher) match(pattern interface{}, fact interface{}, bindings Bindings
 			}
 			binding, found := bs[vv]
 			if found {
+				if s, is := binding.(string); is {
+					// A variable that is bound to a
+					// string stands for that string, also
+					// when the string (which a message can
+					// provide) looks like a variable:
+					// "?x" bound to "?x" (or "?x" to "?y"
+					// and "?y" to "?x") would otherwise
+					// send us round in circles until the
+					// stack overflows, which kills the
+					// process.
+					if fs, is := fact.(string); is && fs == s {
+						return []Bindings{bs}, nil
+					}
+					return nil, nil
+				}
 				return m.match(binding, fact, bindings)
 			} else {
 				// add new binding
